@@ -543,6 +543,17 @@ pub fn run(ctx: &Ctx) {
                 ClsCase {
                     mt: mt.to_string(),
                     f72: vec![],
+                    t108: Some("XRETNX".into()),
+                    t119: None,
+                    seq_b: String::new(),
+                    atoms: "control".into(),
+                    b23: String::new(),
+                    e23: Vec::new(),
+                    f56: false,
+                },
+                ClsCase {
+                    mt: mt.to_string(),
+                    f72: vec![],
                     t108: Some("XREJTX".into()),
                     t119: None,
                     seq_b: String::new(),
@@ -579,6 +590,17 @@ pub fn run(ctx: &Ctx) {
             let mut out = Vec::new();
             if let Some(o) = observe(c) {
                 obs.nontrivial_str(&c.text());
+                // tag 108 is looked at for every message type (has_reject_codes / has_return_codes
+                // check it before anything type-specific)
+                let c108 = class108(&c.t108);
+                let exp_rej = c108 == "REJT" || c108 == "rejt-lower";
+                let exp_ret = c108 == "RETN" || c108 == "retn-lower";
+                if o.reject != exp_rej || o.ret != exp_ret {
+                    out.push(viol(
+                        format!("C17|MT{}|control|108:{}|reject={}-return={}", c.mt, c108, o.reject, o.ret),
+                        format!("expected reject={exp_rej} return={exp_ret}: {}", c.text()),
+                    ));
+                }
                 let implied = if o.reject {
                     "reject"
                 } else if o.ret {
